@@ -51,10 +51,7 @@ Definition ident_member (st0 : istate) (m : jmember) : istate :=
     let s1 := ident_events (mkI (i_node st) (i_nodes st) f (i_hasEnterClass st) (i_imports st) (i_override st)) (m_events m) in
     mkI (add_func (i_node s1) (i_method s1)) (i_nodes s1) (i_method s1) (i_hasEnterClass s1) (i_imports s1) (i_override s1)
   else
-    let annots := match m_first_annot m with
-                  | Some a => (f_annots (i_method st) ++ [a])%list
-                  | None => f_annots (i_method st)
-                  end in
+    let annots := (f_annots (i_method st) ++ m_built_annots m)%list in
     let mods := if String.eqb (m_kind m) "method" then m_mods m else [] in
     let f := mkFunc (m_name m) (m_ret m) [] [] (i_override st) annots false false mods p in
     let ovr := if String.eqb (m_kind m) "method" then false else i_override st in
